@@ -96,3 +96,44 @@ func genCommand(rng *rand.Rand, name string, key []byte, big int) [][]byte {
 	}
 	return args
 }
+
+var actedOnPrefixes = []string{"MOVED", "ASK", "NOAUTH", "ERR invalid password", "ERR Client sent AUTH", "ERR AUTH <password>"}
+
+var errPrefixes = []string{"ERR", "WRONGTYPE", "LOADING", "CLUSTERDOWN", "TRYAGAIN", "CROSSSLOT", "READONLY", "BUSY", "NOSCRIPT", "OOM", "MISCONF",
+	"MASTERDOWN", "NOREPLICAS", "EXECABORT", "NOPERM", "WRONGPASS"}
+
+// genReply produces a random well-formed RESP2 value (never one of the
+// errors the proxy itself acts on).
+func genReply(rng *rand.Rand, depth int, big int) []byte {
+	k := rng.Intn(10)
+	if depth >= 4 && k >= 7 {
+		k = rng.Intn(7)
+	}
+	switch k {
+	case 0:
+		s := []string{"OK", "PONG", "QUEUED", "", "OKAY", "O", "some status with spaces"}[rng.Intn(7)]
+		return StatusReply(s)
+	case 1:
+		p := errPrefixes[rng.Intn(len(errPrefixes))]
+		msgs := []string{" something went wrong", "", " Operation against a key holding the wrong kind of value", " x"}
+		return ErrReply(p + msgs[rng.Intn(len(msgs))])
+	case 2:
+		vals := []int64{0, 1, -1, 42, 9223372036854775807, -9223372036854775808, 1000000}
+		return IntReply(vals[rng.Intn(len(vals))])
+	case 3:
+		return NullBulk()
+	case 4, 5, 6:
+		return BulkReply(genArg(rng, big))
+	case 7:
+		return []byte("*-1\r\n")
+	case 8:
+		return []byte("*0\r\n")
+	default:
+		n := 1 + rng.Intn(5)
+		el := make([][]byte, n)
+		for i := range el {
+			el[i] = genReply(rng, depth+1, big/8)
+		}
+		return ArrayReply(el...)
+	}
+}
